@@ -202,6 +202,7 @@ def c18(ck):
         seqs.append([rq(A, ["r"], 1, oneway=True), rq(A, ["r"], 2), rq(Bn, ["r"], 3, oneway=True), rq(Bn, ["e0"], 4)])
         seqs.append([rq(A, ["r"], 1), req("org.example.a.Nope", {"x": 1}), rq(Bn, ["mni"], 2)])
         # messages larger than the bridge's read buffer (8192), in both directions: one burst, then nothing more from that side
+        seqs.append([rq(A, ["c1", "r", "c0", "rf"], 1, more=True), rq(A, ["rf"], 2), rq(A, ["r"], 3)])   # final replies spelling out continues:false
         seqs.append([rq(A, ["r"], "x" * 9000)])
         seqs.append([rq(A, ["r"], "y" * 70000), rq(A, ["r"], 2)])
         seqs.append([rq(A, ["c1", "r", "r", "c0", "r"], "z" * 20000, more=True)])
@@ -240,9 +241,9 @@ def c18(ck):
                         continue
                 else:
                     sq = seq
-                for behaviour in (("pipelined", "one-at-a-time") if si < 7 or (not quick and si < n_fixed) else ("pipelined",)):
+                for behaviour in (("pipelined", "one-at-a-time") if si < 8 or (not quick and si < n_fixed) else ("pipelined",)):
                     args = {"resolver": ["--resolver", sv.r, "bridge"], "connect": ["bridge", "--connect", sv.a],
-                            "activate": ["--activate", "%s --listen $VARLINK_ADDRESS" % harness_bin("h_actsrv"), "bridge"],
+                            "activate": ["--activate", "env VH_NOISY=1 %s --listen $VARLINK_ADDRESS" % harness_bin("h_actsrv"), "bridge"],
                             "bridge": ["--bridge", "%s --stdio" % harness_bin("h_actsrv"), "bridge"]}[mode]
                     # expected: every request answered by the service it names; GetInfo by the resolver in resolver mode
                     exp = b""
@@ -383,6 +384,8 @@ def c20(ck):
                 cases.append(([op + "org.varlink.service." + en], False, 0))
                 cases.append((["c1", "r", "c0", op + "org.varlink.service." + en], True, 0))
         cases.append((["E:com.example.Custom"], False, 0))
+        # the final reply spells out "continues": false
+        cases += [(["rf"], True, 1), (["c1", "r", "r", "c0", "rf"], True, "s"), (["rf"], False, 2)]
         addrs = [("unix-deep", sv.a), ("tcp", sv.tcp), ("resolver", None)]
         n = 0
         for sc, more, v in cases:
@@ -396,7 +399,12 @@ def c20(ck):
             if addr is None:
                 args += ["--resolver", sv.r]
             args += ["call"] + (["--more"] if more else []) + [url, json.dumps(params)]
-            p = subprocess.run([CLI] + args, stdout=subprocess.PIPE, stderr=subprocess.PIPE, env=ENV, timeout=20)
+            try:
+                p = subprocess.run([CLI] + args, stdout=subprocess.PIPE, stderr=subprocess.PIPE, env=ENV, timeout=20)
+            except subprocess.TimeoutExpired:
+                ck.case(json.dumps([sc, more, v, form, color], sort_keys=True))
+                ck.failures.append({"args": args, "what": "`varlink call` did not exit within 20 s although the service had sent its final reply"})
+                continue
             out = SGR.sub("", p.stdout.decode("utf-8", "replace"))
             err = SGR.sub("", p.stderr.decode("utf-8", "replace"))
             # what the service replies (direct socket)
